@@ -80,6 +80,8 @@ import (
 	"fmt"
 	"math"
 	"os"
+	"regexp"
+	"runtime"
 	"runtime/debug"
 	"sort"
 	"strings"
@@ -309,29 +311,30 @@ type vC17Sim struct {
 	sigOf                     func(k int32) string // optional refinement of provideSig per key
 	noteOf                    func(k int32) string // optional annotation of a key in witnesses
 
-	mu        sync.Mutex
-	epochs    []vC17Epoch
-	reported  []bool
-	repAt     [][]time.Duration // virtual times at which the router reported each peer (ascending)
-	sends     map[int32][]vC17Send
-	addrs     []ma.Multiaddr
-	addrBytes [][]byte
-	targets   map[[2]int32][]int32
-	model     map[int32]*vC17KeyModel
-	blocked   [][2]time.Duration // outages: obligations suspended
-	shortOut  [][2]time.Duration // outages shorter than the smallest offline delay: windows across them get a later deadline
-	deferred  []vC17Deferred     // keys handed over during an outage and still queued when it ends
-	merges    []vC17Merge        // scheduled prefixes replaced by a shorter one during a StartProviding call
-	oneRegion time.Duration      // > 0: the StartProviding call at this time found a schedule of one region and added more
-	onePrefix string             // that region's prefix
-	stuckAt   time.Duration      // > 0: first time the cursor was seen re-armed on onePrefix at its own slot with more regions scheduled
-	nGCP      int
-	nSend     int
-	nSendFail int
-	badPay    []string
-	unrep     []string
-	apiErr    []string
-	capHits   []vC17CapHit
+	mu         sync.Mutex
+	epochs     []vC17Epoch
+	reported   []bool
+	repAt      [][]time.Duration // virtual times at which the router reported each peer (ascending)
+	sends      map[int32][]vC17Send
+	addrs      []ma.Multiaddr
+	addrBytes  [][]byte
+	targets    map[[2]int32][]int32
+	model      map[int32]*vC17KeyModel
+	blocked    [][2]time.Duration // outages: obligations suspended
+	shortOut   [][2]time.Duration // outages shorter than the smallest offline delay: windows across them get a later deadline
+	deferred   []vC17Deferred     // keys handed over during an outage and still queued when it ends
+	merges     []vC17Merge        // scheduled prefixes replaced by a shorter one during a StartProviding call
+	oneRegion  time.Duration      // > 0: the StartProviding call at this time found a schedule of one region and added more
+	onePrefix  string             // that region's prefix
+	stuckAt    time.Duration      // > 0: first time the cursor was seen re-armed on onePrefix at its own slot with more regions scheduled
+	nGCP       int
+	nSend      int
+	nSendFail  int
+	badPay     []string
+	unrep      []string
+	apiErr     []string
+	capHits    []vC17CapHit
+	earlyStops []vC17Explore // explorations left by the no-fresh-peers break with gaps still unexplored
 
 	outage       atomic.Bool
 	closing      atomic.Bool
@@ -534,6 +537,9 @@ func (s *vC17Sim) SendMessage(ctx context.Context, p peer.ID, m *pb.Message) err
 		s.flakyLast[job] = flaky
 	}
 	s.sends[ki] = append(s.sends[ki], vC17Send{t: now, peer: pi, epoch: int32(len(s.epochs) - 1), ok: ok, flaky: flaky})
+	if tr := os.Getenv("VERIF_C17_TRACEKEY"); tr != "" && strings.HasPrefix(vC17Bits(&s.pool.keys[ki].kad, 64), tr) { // debugging aid
+		fmt.Fprintf(os.Stderr, "TRACE +%v key %s (%x) -> peer %s ok=%v\n", now, vC17Bits(&s.pool.keys[ki].kad, 16), key[:6], vC17Bits(&s.pool.peers[pi].kad, 16), ok)
+	}
 	// witness: who sends a key that was stopped more than 10 minutes ago (first three)
 	if m := s.model[ki]; m != nil && len(m.segs) > 0 && len(s.lateStacks) < 3 {
 		if sg := m.segs[len(m.segs)-1]; sg.stopped && !sg.open && now > sg.e+10*time.Minute {
@@ -909,7 +915,41 @@ func (s *vC17Sim) allocSig(v *vC17Verdict, k int32, lo, hi time.Duration) (*int,
 	if hit, what := s.smallSwarmUnreported(k, lo, hi); hit {
 		return &v.capFail, vC17CapSig, "; " + what
 	}
+	if hit, what := s.stoppedOnEmptyGaps(k, lo, hi); hit {
+		return &v.allocFail, "alloc/not-r-nearest/exploration-stopped-after-two-empty-gaps", "; " + what
+	}
 	return &v.allocFail, "alloc/not-r-nearest", ""
+}
+
+// stoppedOnEmptyGaps: the miss is explained by finding #31 - every exploration inside [lo-1m, hi] that ended early
+// and left a gap under which one of the key's target peers lies, ended after two CONSECUTIVE lookups that found no
+// fresh peer (two empty gaps probed in a row), as maxConsecutiveNoFreshPeers documents it. An exploration that
+// ended early in any other way (a break although the previous lookup did find fresh peers) keeps the plain signature.
+func (s *vC17Sim) stoppedOnEmptyGaps(k int32, lo, hi time.Duration) (bool, string) {
+	found, what := false, ""
+	for e := range s.epochs {
+		if s.epochs[e].start > hi || s.epochEnd(e) < lo {
+			continue
+		}
+		for _, p := range s.target(k, e) {
+			pb := vC17Bits(&s.pool.peers[p].kad, 64)
+			for _, x := range s.earlyStops {
+				if x.t < lo-time.Minute || x.t > hi {
+					continue
+				}
+				for _, g := range x.gaps {
+					if strings.HasPrefix(pb, g) {
+						if !x.lastNoFresh {
+							return false, ""
+						}
+						found = true
+						what = fmt.Sprintf("at +%v an exploration stopped after %d lookups, the last two of them without fresh peers, leaving %v unexplored; target peer %s… lies under %q", x.t.Round(time.Second), x.requests, x.gaps, pb[:16], g)
+					}
+				}
+			}
+		}
+	}
+	return found, what
 }
 
 // vC17Deferred is the obligation for a key handed over while the network was down and the provider
@@ -1279,6 +1319,7 @@ func (s *vC17Sim) evaluate(end time.Duration, windows bool) vC17Verdict {
 	c.Obs("keys_with_gap", v.gapFail)
 	c.Obs("keys_misallocated_after_lookup_cap", v.capFail)
 	c.Obs("explorations_stopped_at_lookup_cap", len(s.capHits))
+	c.Obs("explorations_stopped_by_no_fresh_peers_with_gaps_left", len(s.earlyStops))
 	if v.allocFail > 3 || v.gapFail > 3 || v.provFail > 3 || v.stopFail > 3 || v.catchFail > 3 {
 		c.Logf("violations beyond the first three per kind are only counted: alloc=%d gap=%d provide=%d stop=%d catch-up=%d", v.allocFail, v.gapFail, v.provFail, v.stopFail, v.catchFail)
 	}
@@ -1428,11 +1469,44 @@ var (
 
 type vC17LogCore struct{}
 
-func (vC17LogCore) Enabled(l zapcore.Level) bool        { return l >= zapcore.WarnLevel }
+// vC17Explore is one closestPeersToPrefix run as its debug lines tell it (grouped by goroutine: one exploration per
+// batch goroutine). earlyStop: the loop left by the no-fresh-peers break (the breaking lookup logs nothing, so the
+// last logged line still lists gaps and the request count is two ahead of its index); lastNoFresh: the last logged
+// lookup found nobody new either, i.e. the break was taken after two CONSECUTIVE lookups without fresh peers, as
+// the code documents it.
+type vC17Explore struct {
+	t           time.Duration
+	requests    int
+	lastI       int
+	lastPeers   int
+	prevPeers   int
+	gaps        []string
+	earlyStop   bool
+	lastNoFresh bool
+}
+
+var (
+	vC17ExpMu   sync.Mutex
+	vC17ExpOpen = map[uint64]*vC17Explore{}
+	vC17ReqRe   = regexp.MustCompile(`exploration required (\d+) requests`)
+)
+
+func vC17Goid() uint64 {
+	var buf [64]byte
+	n := runtime.Stack(buf[:], false)
+	var id uint64
+	fmt.Sscanf(string(buf[:n]), "goroutine %d ", &id)
+	return id
+}
+
+func (vC17LogCore) Enabled(l zapcore.Level) bool        { return l >= zapcore.DebugLevel }
 func (k vC17LogCore) With([]zapcore.Field) zapcore.Core { return k }
 func (k vC17LogCore) Sync() error                       { return nil }
 func (k vC17LogCore) Check(e zapcore.Entry, ce *zapcore.CheckedEntry) *zapcore.CheckedEntry {
-	if k.Enabled(e.Level) && strings.Contains(e.Message, "maxPrefixSearches") {
+	if e.Level >= zapcore.WarnLevel && strings.Contains(e.Message, "maxPrefixSearches") {
+		return ce.AddCore(e, k)
+	}
+	if e.Level == zapcore.DebugLevel && (e.Message == "closestPeersToPrefix" || (strings.HasPrefix(e.Message, "region ") && strings.Contains(e.Message, "exploration required"))) {
 		return ce.AddCore(e, k)
 	}
 	return ce
@@ -1441,6 +1515,49 @@ func (k vC17LogCore) Check(e zapcore.Entry, ce *zapcore.CheckedEntry) *zapcore.C
 func (k vC17LogCore) Write(e zapcore.Entry, fields []zapcore.Field) error {
 	s := vC17CurSim.Load()
 	if s == nil {
+		return nil
+	}
+	if e.Level == zapcore.DebugLevel {
+		g := vC17Goid()
+		vC17ExpMu.Lock()
+		defer vC17ExpMu.Unlock()
+		x := vC17ExpOpen[g]
+		if e.Message == "closestPeersToPrefix" {
+			if x == nil {
+				x = &vC17Explore{lastI: -1}
+				vC17ExpOpen[g] = x
+			}
+			x.gaps = nil
+			for _, f := range fields {
+				switch f.Key {
+				case "i":
+					x.lastI = int(f.Integer)
+				case "len(allClosestPeers)":
+					x.prevPeers, x.lastPeers = x.lastPeers, int(f.Integer)
+				case "gaps":
+					if gs, ok := f.Interface.([]bitstr.Key); ok {
+						for _, gp := range gs {
+							x.gaps = append(x.gaps, string(gp))
+						}
+					}
+				}
+			}
+			return nil
+		}
+		delete(vC17ExpOpen, g)
+		m := vC17ReqRe.FindStringSubmatch(e.Message)
+		if x == nil || m == nil {
+			return nil // an exploration that logged no lookup line: broke in its first two lookups; nothing to attribute
+		}
+		fmt.Sscanf(m[1], "%d", &x.requests)
+		x.t = s.now()
+		x.earlyStop = len(x.gaps) > 0 && x.requests < maxExplorationPrefixSearches && x.requests == x.lastI+2
+		x.lastNoFresh = x.lastI >= 1 && x.lastPeers == x.prevPeers
+		if x.earlyStop {
+			s.mu.Lock()
+			s.earlyStops = append(s.earlyStops, *x)
+			s.mu.Unlock()
+		}
 		return nil
 	}
 	hit := vC17CapHit{t: s.now()}
@@ -1468,11 +1585,9 @@ func vC17SetupLog() {
 		out := zapcore.NewCore(zapcore.NewConsoleEncoder(zap.NewDevelopmentEncoderConfig()), zapcore.Lock(os.Stderr), lvl)
 		logging.SetPrimaryCore(zapcore.NewTee(out, vC17LogCore{}))
 		logging.Logger(DefaultLoggerName)
-		minLvl := "warn"
-		if lvl < zapcore.WarnLevel {
-			minLvl = lvl.String()
-		}
-		logging.SetLogLevel(DefaultLoggerName, minLvl)
+		// the provider's logger runs at debug level: the exploration lines reach vC17LogCore (the console core above
+		// keeps its own level)
+		logging.SetLogLevel(DefaultLoggerName, "debug")
 	})
 }
 
